@@ -893,6 +893,16 @@ func (fx *FuncExec) evalSpecCall(env *SpecEnv, x *ast.CallExpr) Val {
 			return bv(h)
 		}
 		return bv("false")
+	case "runecount":
+		// runecount(s): len([]rune(s))
+		a := fx.evalSpec(env, x.Args[0])
+		fx.em.DeclareBase("gs.runecount", "(declare-fun gs.runecount (Str) Int)\n(declare-fun gs.runes (Str) (Array Int Int))")
+		return Val{T: types.Typ[types.Int], Sort: SInt, S: "(gs.runecount " + a.S + ")"}
+	case "runeat":
+		// runeat(s, i): []rune(s)[i]
+		a, i := fx.evalSpec(env, x.Args[0]), fx.evalSpec(env, x.Args[1])
+		fx.em.DeclareBase("gs.runecount", "(declare-fun gs.runecount (Str) Int)\n(declare-fun gs.runes (Str) (Array Int Int))")
+		return Val{T: types.Typ[types.Rune], Sort: SInt, S: fmt.Sprintf("(select (gs.runes %s) %s)", a.S, i.S)}
 	case "disjoint":
 		// disjoint(a, b): the two slices do not share a backing array (or one of them has none)
 		a, b := fx.evalSpec(env, x.Args[0]), fx.evalSpec(env, x.Args[1])
